@@ -346,6 +346,8 @@ def ref_parse(tokens):
                     return None
                 out.append(("and", sub))
             elif t == "||" or t.endswith("?"):
+                if t in ("?", "!?"):
+                    return None   # a conditional marker without a flag name: an operator left dangling
                 if pos + 1 >= len(tokens) or tokens[pos + 1] != "(":
                     return None
                 pos += 2
@@ -554,6 +556,12 @@ def enum_depstrings(seed):
                  "?? ( x? ( a ) b ) x? ( a )", "^^ ( ( x? ( a ) ) b )", "?? ( ^^ ( y? ( a ) b ) a )", "^^ ( x? ( y? ( a ) ) b )", "|| ( ?? ( !x? ( a ) b ) !b )"):
         strings += 1
         cases += _one(text.split(), fails, "fixed", required_use=True)
+    # a conditional marker that names no flag, alone and in the middle of well-formed text
+    for text in ("? ( a )", "!? ( a )", "a ? ( b )", "|| ( a ? ( b ) )", "x? ( ? ( a ) )", "a !? ( b ) b", "( ? ( a ) )"):
+        strings += 1
+        cases += _one(text.split(), fails, "fixed")
+        strings += 1
+        cases += _one(text.split(), fails, "fixed", required_use=True)
     r = random.Random(seed)
     for _ in range(20000 if thorough else 4000):
         t = gen_tree(r, 3)
@@ -569,7 +577,7 @@ def enum_depstrings(seed):
         strings += 1
         cases += _one(t, fails, "random")
     return {"name": "C09.DepSet.parse_str_evaluate.bounded_enumeration",
-            "bound": f"every string of <= {N} tokens over {TOK}, every such string over {TOK2} (REQUIRED_USE operators) containing ^^ or ??, 12 fixed strings with conditionals inside ^^ / ?? groups, plus seeded random nested strings (depth <= 3) with single-token corruptions: accept/reject against the grammar, "
+            "bound": f"every string of <= {N} tokens over {TOK}, every such string over {TOK2} (REQUIRED_USE operators) containing ^^ or ??, 12 fixed strings with conditionals inside ^^ / ?? groups, 7 strings with a conditional marker that names no flag, plus seeded random nested strings (depth <= 3) with single-token corruptions: accept/reject against the grammar, "
                      "str/parse round trip, evaluate_depset under every subset of {x, y} compared on every subset of {a, b}",
             "cases": cases, "failures": fails}
 
